@@ -3,8 +3,8 @@ package main
 // SELF: the engine's conformance suite (harness/types_api/conformance.go). Not one of the 20 properties and not in
 // MANIFEST.json; `./check SELF` is run by hand and by run_all.sh after engine changes.
 func init() {
-	self := &Property{ID: "SELF", Pkgs: []string{"types/api"}, Bounds: map[string]string{"cases": "32 concrete programs"}}
-	for _, n := range []string{"A", "B", "C"} {
+	self := &Property{ID: "SELF", Pkgs: []string{"types/api"}, Bounds: map[string]string{"cases": "43 concrete programs"}}
+	for _, n := range []string{"A", "B", "C", "D", "E"} {
 		self.Harnesses = append(self.Harnesses, &HarnessSpec{Name: "verifHarnessConformance" + n, Pkg: "types/api", Params: map[string]int{},
 			ExpectReach: []string{"end"}, Desc: "engine conformance: language and library semantics on concrete programs, same file validated natively"})
 	}
